@@ -16,6 +16,28 @@ pub struct ItemData {
     pub id: u32,
 }
 
+/// The item type injected into the matcher: its destruction is logged (C11).
+pub struct Tracked {
+    pub key: ItemData,
+}
+impl Drop for Tracked {
+    fn drop(&mut self) {
+        DROPS.lock().unwrap_or_else(|e| e.into_inner()).push(self.key);
+    }
+}
+/// destruction log of the execution in progress (one execution at a time per process)
+pub static DROPS: Mutex<Vec<ItemData>> = Mutex::new(Vec::new());
+/// live injector handles per stream generation, maintained by the harness threads
+pub static HANDLES: Mutex<Vec<i64>> = Mutex::new(Vec::new());
+
+fn handle_delta(gen: u32, d: i64) {
+    let mut h = HANDLES.lock().unwrap_or_else(|e| e.into_inner());
+    if h.len() <= gen as usize {
+        h.resize(gen as usize + 1, 0);
+    }
+    h[gen as usize] += d;
+}
+
 #[derive(Clone, Debug)]
 pub struct ItemSpec {
     pub id: u32,
@@ -130,6 +152,10 @@ pub enum Obs {
     Dropped { t: u64 },
     HorizonExceeded { t: u64, what: String },
     Panicked { t: u64, thread: usize, msg: String },
+    /// destruction bookkeeping after an operation (C11)
+    DropCheck { t: u64, dropped: Vec<ItemData>, live_handles: Vec<i64>, cur_gen: Option<u32>, op: String },
+    /// after every thread has finished and every handle is gone
+    Final { dropped: Vec<ItemData> },
 }
 
 pub struct RunResult {
@@ -147,16 +173,16 @@ fn pattern_string<T: Sync + Send + 'static>(p: &nucleo::pattern::MultiPattern, c
         .join("|")
 }
 
-fn copy_snapshot(n: &Nucleo<ItemData>, cols: u32, refm: &mut Matcher) -> SnapCopy {
+fn copy_snapshot(n: &Nucleo<Tracked>, cols: u32, refm: &mut Matcher) -> SnapCopy {
     let s = n.snapshot();
     let matches: Vec<(u32, u32)> = s.matches().iter().map(|m| (m.score, m.idx)).collect();
     // get_item is the checked accessor: it must be consulted before any unchecked one
-    let items: Vec<Option<ItemData>> = matches.iter().map(|&(_, idx)| s.get_item(idx).map(|it| *it.data)).collect();
+    let items: Vec<Option<ItemData>> = matches.iter().map(|&(_, idx)| s.get_item(idx).map(|it| it.data.key)).collect();
     let mut consistent = s.matched_item_count() as usize == matches.len();
     if items.iter().all(|i| i.is_some()) {
         // only now is it safe to touch the unchecked accessors
-        let via_iter: Vec<ItemData> = s.matched_items(..).map(|it| *it.data).collect();
-        let via_get: Vec<Option<ItemData>> = (0..matches.len() as u32 + 1).map(|k| s.get_matched_item(k).map(|it| *it.data)).collect();
+        let via_iter: Vec<ItemData> = s.matched_items(..).map(|it| it.data.key).collect();
+        let via_get: Vec<Option<ItemData>> = (0..matches.len() as u32 + 1).map(|k| s.get_matched_item(k).map(|it| it.data.key)).collect();
         let want: Vec<ItemData> = items.iter().map(|i| i.unwrap()).collect();
         consistent &= via_iter == want;
         consistent &= via_get.len() == want.len() + 1 && via_get[want.len()].is_none() && via_get[..want.len()].iter().all(|x| x.is_some());
@@ -167,7 +193,7 @@ fn copy_snapshot(n: &Nucleo<ItemData>, cols: u32, refm: &mut Matcher) -> SnapCop
         if let Some(it) = s.get_item(idx) {
             universe.push(Uni {
                 idx,
-                data: *it.data,
+                data: it.data.key,
                 len: it.matcher_columns.iter().map(|c| c.len() as u32).sum(),
                 ref_score: s.pattern().score(it.matcher_columns, refm),
             });
@@ -195,30 +221,29 @@ static REF_MATCHERS: Mutex<Vec<(Matcher, Matcher)>> = Mutex::new(Vec::new());
 
 struct Shared {
     obs: Mutex<Vec<Obs>>,
-    slots: Mutex<Vec<Option<(Injector<ItemData>, u32)>>>,
+    slots: Mutex<Vec<Option<(Injector<Tracked>, u32)>>>,
 }
 
-fn do_push(exec: &Exec, shared: &Shared, thread: usize, inj: &Injector<ItemData>, gen: u32, items: &[ItemSpec], batch: bool) {
+fn do_push(exec: &Exec, shared: &Shared, thread: usize, inj: &Injector<Tracked>, gen: u32, items: &[ItemSpec], batch: bool) {
     let ids: Vec<u32> = items.iter().map(|i| i.id).collect();
     let t = exec.log(format!("push-call gen={gen} ids={ids:?}"), 0);
     shared.obs.lock().unwrap().push(Obs::PushCall { t, thread, gen, ids: ids.clone() });
     let first_idx;
     if batch {
         let before = inj.injected_items();
-        let texts: Vec<(ItemData, &'static str)> = items.iter().map(|i| (ItemData { gen, id: i.id }, i.text)).collect();
         let lookup: std::collections::HashMap<u32, &'static str> = items.iter().map(|i| (i.id, i.text)).collect();
-        inj.extend(texts.iter().map(|(d, _)| *d).collect::<Vec<_>>().into_iter(), |d, cols| fill(lookup[&d.id], cols));
+        inj.extend(items.iter().map(|i| Tracked { key: ItemData { gen, id: i.id } }).collect::<Vec<_>>().into_iter(), |d, cols| fill(lookup[&d.key.id], cols));
         let _ = before;
         first_idx = None;
     } else {
         let it = &items[0];
         let text = it.text;
-        first_idx = Some(inj.push(ItemData { gen, id: it.id }, move |_, cols| fill(text, cols)));
+        first_idx = Some(inj.push(Tracked { key: ItemData { gen, id: it.id } }, move |_, cols| fill(text, cols)));
     }
     // the call has returned: every item of the call must be visible now (and where push said)
-    let mut visible = ids.iter().all(|id| (0..UNIVERSE).any(|i| inj.get(i).map_or(false, |it| it.data.id == *id && it.data.gen == gen)));
+    let mut visible = ids.iter().all(|id| (0..UNIVERSE).any(|i| inj.get(i).map_or(false, |it| it.data.key.id == *id && it.data.key.gen == gen)));
     if let Some(i) = first_idx {
-        visible &= inj.get(i).map_or(false, |it| it.data.id == items[0].id);
+        visible &= inj.get(i).map_or(false, |it| it.data.key.id == items[0].id);
     }
     let t = exec.log(format!("push-return gen={gen} ids={ids:?} idx={first_idx:?}"), 0);
     shared.obs.lock().unwrap().push(Obs::PushReturn { t, thread, gen, ids, first_idx, visible });
@@ -227,6 +252,8 @@ fn do_push(exec: &Exec, shared: &Shared, thread: usize, inj: &Injector<ItemData>
 /// Runs one execution of `scn` under the schedule `prefix`.
 pub fn run_scenario(scn: &Scenario, prefix: &[usize]) -> RunResult {
     let config = Config::DEFAULT;
+    DROPS.lock().unwrap_or_else(|e| e.into_inner()).clear();
+    HANDLES.lock().unwrap_or_else(|e| e.into_inner()).clear();
     let exec = Exec::new(prefix.to_vec(), scn.pool_threads, scn.slots, scn.fine, scn.flag_points);
     let shared = Arc::new(Shared {
         obs: Mutex::new(Vec::new()),
@@ -234,17 +261,22 @@ pub fn run_scenario(scn: &Scenario, prefix: &[usize]) -> RunResult {
     });
     let exec_n = exec.clone();
     let notify: Arc<dyn Fn() + Sync + Send> = Arc::new(move || exec_n.notify());
-    let nucleo: Nucleo<ItemData> = Nucleo::new(config.clone(), notify, Some(scn.pool_threads), scn.columns);
+    let nucleo: Nucleo<Tracked> = Nucleo::new(config.clone(), notify, Some(scn.pool_threads), scn.columns);
     exec.set_probe(nucleo.verif_worker_locked_probe());
     // preload single-threaded, before any scheduling starts (the hooks see an unregistered thread)
     if !scn.preload.is_empty() {
         let inj = nucleo.injector();
         for it in &scn.preload {
             let text = it.text;
-            inj.push(ItemData { gen: 0, id: it.id }, move |_, cols| fill(text, cols));
+            inj.push(Tracked { key: ItemData { gen: 0, id: it.id } }, move |_, cols| fill(text, cols));
         }
     }
-    let initial_handles: Vec<Option<Injector<ItemData>>> = scn.injectors.iter().map(|(own, _)| if *own { Some(nucleo.injector()) } else { None }).collect();
+    let initial_handles: Vec<Option<Injector<Tracked>>> = scn.injectors.iter().map(|(own, _)| if *own { Some(nucleo.injector()) } else { None }).collect();
+    for h in &initial_handles {
+        if h.is_some() {
+            handle_delta(0, 1);
+        }
+    }
 
     exec.register(T_U);
     for k in 0..scn.injectors.len() {
@@ -264,7 +296,7 @@ pub fn run_scenario(scn: &Scenario, prefix: &[usize]) -> RunResult {
             let body = std::panic::AssertUnwindSafe(move || {
             let mut nucleo = Some(nucleo);
             let mut gen = 0u32;
-            let mut held: Vec<Option<(Injector<ItemData>, u32)>> = Vec::new();
+            let mut held: Vec<Option<(Injector<Tracked>, u32)>> = Vec::new();
             let mut last_text: Vec<String> = vec![String::new(); cols as usize];
             let mut tick_notify_base = 0u64;
             // reference matchers are reused across executions (creating one costs a 135 KiB zeroed allocation)
@@ -273,7 +305,7 @@ pub fn run_scenario(scn: &Scenario, prefix: &[usize]) -> RunResult {
             let mut pair = REF_MATCHERS.lock().unwrap_or_else(|e| e.into_inner()).pop().unwrap_or_else(|| (Matcher::new(Config::DEFAULT), Matcher::new(Config::DEFAULT)));
             let mut refm: &mut Matcher = &mut pair.0;
             let mut refm2: &mut Matcher = &mut pair.1;
-            let mut tick = |n: &mut Nucleo<ItemData>, gen: u32, base: &mut u64, refm: &mut Matcher| -> nucleo::Status {
+            let mut tick = |n: &mut Nucleo<Tracked>, gen: u32, base: &mut u64, refm: &mut Matcher| -> nucleo::Status {
                 let before = copy_snapshot(n, cols, refm);
                 *base = exec.notify_count();
                 let t = exec.log("tick-begin".into(), 0);
@@ -293,6 +325,10 @@ pub fn run_scenario(scn: &Scenario, prefix: &[usize]) -> RunResult {
             };
             for op in &script {
                 exec.point("U:op", 0, Wait::None);
+                // after the matcher was dropped only handle operations remain meaningful
+                if nucleo.is_none() && !matches!(op, UOp::CloneHandle(_) | UOp::DropHandle(_) | UOp::PushHandle(..) | UOp::DropNucleo) {
+                    continue;
+                }
                 match op {
                     UOp::Reparse(col, text) => {
                         let n = nucleo.as_mut().unwrap();
@@ -316,6 +352,7 @@ pub fn run_scenario(scn: &Scenario, prefix: &[usize]) -> RunResult {
                     }
                     UOp::GiveInjector(slot) => {
                         let inj = nucleo.as_ref().unwrap().injector();
+                        handle_delta(gen, 1);
                         shared.slots.lock().unwrap()[*slot] = Some((inj, gen));
                         exec.fill_slot(*slot);
                     }
@@ -376,16 +413,23 @@ pub fn run_scenario(scn: &Scenario, prefix: &[usize]) -> RunResult {
                         }
                     }
                     UOp::TakeHandle => {
-                        held.push(Some((nucleo.as_ref().unwrap().injector(), gen)));
+                        if let Some(n) = nucleo.as_ref() {
+                            held.push(Some((n.injector(), gen)));
+                            handle_delta(gen, 1);
+                        }
                     }
                     UOp::CloneHandle(k) => {
                         if let Some(Some((h, g))) = held.get(*k) {
                             let c = (h.clone(), *g);
+                            handle_delta(*g, 1);
                             held.push(Some(c));
                         }
                     }
                     UOp::DropHandle(k) => {
                         if let Some(h) = held.get_mut(*k) {
+                            if let Some((_, g)) = h {
+                                handle_delta(*g, -1);
+                            }
                             *h = None;
                         }
                     }
@@ -400,6 +444,12 @@ pub fn run_scenario(scn: &Scenario, prefix: &[usize]) -> RunResult {
                         shared.obs.lock().unwrap().push(Obs::Dropped { t });
                     }
                 }
+                {
+                    let dropped = DROPS.lock().unwrap_or_else(|e| e.into_inner()).clone();
+                    let live = HANDLES.lock().unwrap_or_else(|e| e.into_inner()).clone();
+                    let t = exec.now();
+                    shared.obs.lock().unwrap().push(Obs::DropCheck { t, dropped, live_handles: live, cur_gen: nucleo.as_ref().map(|_| gen), op: format!("{op:?}") });
+                }
                 if let Some(n) = nucleo.as_ref() {
                     let reported = n.active_injectors();
                     let expected = held.iter().filter(|h| h.as_ref().map_or(false, |(_, g)| *g == gen)).count();
@@ -408,6 +458,9 @@ pub fn run_scenario(scn: &Scenario, prefix: &[usize]) -> RunResult {
                 }
             }
             exec.point("U:end", 0, Wait::None);
+            for h in held.iter().flatten() {
+                handle_delta(h.1, -1);
+            }
             drop(held);
             drop(nucleo);
             REF_MATCHERS.lock().unwrap_or_else(|e| e.into_inner()).push(pair);
@@ -431,7 +484,7 @@ pub fn run_scenario(scn: &Scenario, prefix: &[usize]) -> RunResult {
             let exec2 = exec.clone();
             let shared2 = shared.clone();
             let body = std::panic::AssertUnwindSafe(move || {
-            let mut handle: Option<(Injector<ItemData>, u32)> = initial.map(|h| (h, 0));
+            let mut handle: Option<(Injector<Tracked>, u32)> = initial.map(|h| (h, 0));
             for op in &script {
                 match op {
                     IOp::Await(slot) => {
@@ -452,9 +505,21 @@ pub fn run_scenario(scn: &Scenario, prefix: &[usize]) -> RunResult {
                     }
                     IOp::DropHandle => {
                         exec.point("I:op", 0, Wait::None);
+                        if let Some((_, g)) = &handle {
+                            handle_delta(*g, -1);
+                        }
                         handle = None;
                     }
                 }
+                {
+                    let dropped = DROPS.lock().unwrap_or_else(|e| e.into_inner()).clone();
+                    let live = HANDLES.lock().unwrap_or_else(|e| e.into_inner()).clone();
+                    let t = exec.now();
+                    shared.obs.lock().unwrap().push(Obs::DropCheck { t, dropped, live_handles: live, cur_gen: None, op: format!("{op:?}") });
+                }
+            }
+            if let Some((_, g)) = &handle {
+                handle_delta(*g, -1);
             }
             drop(handle);
             });
@@ -474,7 +539,12 @@ pub fn run_scenario(scn: &Scenario, prefix: &[usize]) -> RunResult {
         }
     }
     // (threads of an abandoned execution stay parked for ever; they are leaked on purpose)
-    let obs = std::mem::take(&mut *shared.obs.lock().unwrap());
+    let mut obs = std::mem::take(&mut *shared.obs.lock().unwrap());
+    if completed {
+        // a slot that was filled but never awaited still holds a handle: release it first
+        shared.slots.lock().unwrap().clear();
+        obs.push(Obs::Final { dropped: DROPS.lock().unwrap_or_else(|e| e.into_inner()).clone() });
+    }
     RunResult { trace, obs, config }
 }
 
